@@ -34,6 +34,17 @@ const DELAY: Duration = Duration::from_millis(15); // retry delay
 const T_BCAST: Duration = Duration::from_millis(3000);
 const WATCHDOG: Duration = Duration::from_secs(10);
 const HEALTHY_CALLS: usize = 3;
+const IDLE_WATCHDOG: Duration = Duration::from_secs(2);
+/// Watchdog expiries so far. When the implementation's socket behaviour systematically differs from
+/// what the scripts engineer (e.g. a client that no longer closes its socket after EOF), every case
+/// would sit in a watchdog: after a handful of expiries the watchdogs shrink and skipped cases are
+/// not tried again, so the run ends in bounded time and reports the skipped share.
+static EXPIRIES: AtomicU64 = AtomicU64::new(0);
+const MANY_EXPIRIES: u64 = 24;
+
+fn watchdog(full: Duration) -> Duration {
+    if EXPIRIES.load(Ordering::SeqCst) > MANY_EXPIRIES { Duration::from_millis(250) } else { full }
+}
 
 // ------------------------------------------------------------------------------------------
 // behaviours
@@ -289,7 +300,7 @@ impl Sniffer {
                 Err(e) => return Err(format!("barrier_errno_{}", e.raw_os_error().unwrap_or(0))),
             }
             h.issued += 1;
-            let deadline = Instant::now() + WATCHDOG;
+            let deadline = Instant::now() + watchdog(WATCHDOG);
             let mut m = self.barriers.lock().unwrap();
             loop {
                 if m.get(&h.port).copied().unwrap_or(0) >= h.issued {
@@ -297,6 +308,7 @@ impl Sniffer {
                 }
                 let now = Instant::now();
                 if now >= deadline {
+                    EXPIRIES.fetch_add(1, Ordering::SeqCst);
                     return Err("barrier_timeout".into());
                 }
                 m = self.cv.wait_timeout(m, deadline - now).unwrap().0;
@@ -543,10 +555,12 @@ fn handle_conn(sh: Arc<NodeShared>, mut s: TcpStream, id: u64) {
                 let _ = s.shutdown(Shutdown::Write);
                 // the client's reader sees EOF, fails its pending map and shuts its socket down: FIN
                 let mut b = [0u8; 64];
+                let _ = s.set_read_timeout(Some(watchdog(IDLE_WATCHDOG)));
                 let ok = matches!(s.read(&mut b), Ok(0));
                 let mut st = sh.st.lock().unwrap();
                 st.idle_pending -= 1;
                 if !ok {
+                    EXPIRIES.fetch_add(1, Ordering::SeqCst);
                     st.trouble = Some("idle_handshake".into());
                 }
                 close = true;
@@ -698,7 +712,7 @@ impl Node {
         if let Some(s) = &self.sniffer {
             s.barrier()?;
         }
-        let deadline = Instant::now() + WATCHDOG;
+        let deadline = Instant::now() + watchdog(WATCHDOG);
         let mut clean = 0;
         loop {
             {
@@ -718,6 +732,7 @@ impl Node {
                 }
             }
             if Instant::now() >= deadline {
+                EXPIRIES.fetch_add(1, Ordering::SeqCst);
                 return Err("settle".into());
             }
             std::thread::sleep(Duration::from_micros(150));
@@ -1331,7 +1346,7 @@ fn main() {
             let mut r = exec(&env, &ops[i]);
             for _ in 0..2 {
                 if let Some(reason) = &r.skip {
-                    if reason == "no_sniffer" {
+                    if reason == "no_sniffer" || EXPIRIES.load(Ordering::SeqCst) > MANY_EXPIRIES {
                         break;
                     }
                     skipped_tries.lock().unwrap().push(reason.clone());
@@ -1375,6 +1390,24 @@ fn main() {
             out.count(c);
         }
         out.case(line, r.obs.as_deref().unwrap_or("?"), r.nontrivial);
+    }
+    // cases dropped because the implementation's socket behaviour is not the engineered one (as
+    // opposed to scheduling: node_lagged, late_reply*, desync) must stay rare, otherwise the family
+    // no longer checks what it claims: the model answers `ok` to this line
+    let behavioural: u64 = out
+        .counters
+        .iter()
+        .filter(|(k, _)| ["skipped.idle_handshake", "skipped.settle", "skipped.stranger"].contains(&k.as_str()) || k.starts_with("skipped.class_not_engineered") || k.starts_with("skipped.barrier"))
+        .map(|(_, v)| *v)
+        .sum();
+    let total = ops.len() as u64;
+    if args.replay.is_none() {
+        let obs = if behavioural * 20 > total {
+            format!("z1 skipped {behavioural} of {total} cases because sockets did not behave as engineered")
+        } else {
+            "z1 ok".to_string()
+        };
+        out.case("coverage z1", &obs, false);
     }
     if let Some(s) = &env.sniffer {
         out.extra.insert("sniffer_drops".into(), serde_json::json!(s.total_drops()));
